@@ -558,6 +558,78 @@ impl Property for C08Prop {
                 }
             }
         }
+        // routes 3d: both operands are one and the same variable (rewriting `x == x` to true, `x - x`
+        // to 0 or `x / x` to 1 is wrong for NaN, infinities and zero)
+        if args.len() == 2 {
+            let same = match (&args[0], &args[1]) {
+                (Variable::Int(a), Variable::Int(b)) if a == b => Some(("int", lit_int(*a))),
+                (Variable::Float(a), Variable::Float(b)) if float_bits(*a) == float_bits(*b) => Some(("float", lit_float(*a))),
+                (Variable::Bool(a), Variable::Bool(b)) if a == b => Some(("bool", a.to_string())),
+                _ => None,
+            };
+            if let Some((ty, la)) = same {
+                let ret = match &expected {
+                    Exp::Bool(_) => "bool",
+                    Exp::Int(_) => "int",
+                    Exp::Float(_) => "float",
+                    Exp::Err(_) => if is_cmp(op) || ty == "bool" { "bool" } else { ty },
+                };
+                stats.label("both operands one variable");
+                for text in [
+                    format!("f := (a: {ty}) -> {ret} {{ return a {op} a; }}; f({la})"),
+                    format!("a := *(mut {ty} {la}); a {op} a"),
+                    format!("a := *(mut {ty} {la}); r := if (a {op} a) == (a {op} a) {{ a {op} a }} else {{ a {op} a }}; r"),
+                    format!("a := {la}; a {op} a"),
+                ] {
+                    stats.eval();
+                    let o = run::run_text(&text, false);
+                    if !outcome_matches(&o, &expected, true) {
+                        return fail(
+                            format!("C08:{kind}:{op}:same-variable"),
+                            format!("`{text}`: expected {}, got {}", expected.show(), o.short()),
+                        );
+                    }
+                }
+            }
+        }
+        // routes 3e: an operand that fails: the documented error of the failing operand is the outcome
+        // of the whole operation whatever the other operand is (only `&&` and `||` may leave their right
+        // operand unevaluated)
+        if matches!(kind, "int" | "bool") && args.len() == 2 {
+            let (ty, la, lb) = match (&args[0], &args[1]) {
+                (Variable::Int(a), Variable::Int(b)) => ("int", lit_int(*a), lit_int(*b)),
+                (Variable::Bool(a), Variable::Bool(b)) => ("bool", a.to_string(), b.to_string()),
+                _ => unreachable!(),
+            };
+            let ret = if is_cmp(op) || ty == "bool" { "bool" } else { "int" };
+            let (bad_div, bad_mod) = if ty == "int" { ("(7 / z)", "(7 % z)") } else { ("(7 / z == 1)", "(7 % z == 1)") };
+            let skipped = match (op, &args[0]) {
+                ("&&", Variable::Bool(false)) => Some(Exp::Bool(false)),
+                ("||", Variable::Bool(true)) => Some(Exp::Bool(true)),
+                _ => None,
+            };
+            let right_fails = skipped.clone().unwrap_or(Exp::Err("ZeroDivision"));
+            stats.label("an operand that fails");
+            for (text, want) in [
+                (format!("f := (a: {ty}, z: int) -> {ret} {{ return a {op} {bad_div}; }}; f({la}, 0)"), right_fails.clone()),
+                (format!("f := (z: int) -> {ret} {{ return {la} {op} {bad_div}; }}; f(0)"), right_fails.clone()),
+                (format!("f := (b: {ty}, z: int) -> {ret} {{ return {bad_mod} {op} b; }}; f({lb}, 0)"), Exp::Err("ZeroModulo")),
+                (format!("f := (z: int) -> {ret} {{ return {bad_mod} {op} {lb}; }}; f(0)"), Exp::Err("ZeroModulo")),
+                (format!("f := (z: int) -> {ret} {{ return {bad_mod} {op} {bad_div}; }}; f(0)"), Exp::Err("ZeroModulo")),
+            ] {
+                stats.eval();
+                let o = run::run_text(&text, false);
+                // (a constant right operand that makes the outer operation fail whatever the left one is may
+                // be reported when the program is read: then the outer operation's own error is permitted)
+                let outer_at_parse = matches!(&o, Outcome::Rejected(k) if run::EXEC_ERROR_KINDS.contains(&k.as_str())) && matches!(&expected, Exp::Err(e) if matches!(&o, Outcome::Rejected(k) if k == e));
+                if !outcome_matches(&o, &want, false) && !outer_at_parse {
+                    return fail(
+                        format!("C08:{kind}:{op}:failing-operand"),
+                        format!("`{text}`: expected {}, got {}", want.show(), o.short()),
+                    );
+                }
+            }
+        }
         // route 4: compound assignment (value yielded, content afterwards, unchanged on error)
         if let Some((program, _initial)) = &routes.compound {
             stats.eval();
